@@ -14,7 +14,7 @@ BIN="$ROOT/target/fuzz/x86_64-unknown-linux-gnu/release/$T"
 WORK="$ROOT/target/fuzz-work/$T"; rm -rf "$WORK"; mkdir -p "$WORK/corpus" "$WORK/artifacts" "$WORK/logs"
 [ -d "$ROOT/corpus/fuzz/$T" ] && cp "$ROOT/corpus/fuzz/$T"/* "$WORK/corpus/" 2>/dev/null
 t0=$(date +%s)
-( cd "$WORK/logs" && timeout 3h "$BIN" "$WORK/corpus" -runs="$RUNS" -seed="$SEED" -len_control=0 -max_len=256 -jobs=16 -workers=16 -artifact_prefix="$WORK/artifacts/" -print_final_stats=1 >"$WORK/driver.log" 2>&1 )
+( cd "$WORK/logs" && timeout 3h "$BIN" "$WORK/corpus" -runs="$RUNS" -seed="$SEED" -len_control=0 -max_len=384 -jobs=16 -workers=16 -artifact_prefix="$WORK/artifacts/" -print_final_stats=1 >"$WORK/driver.log" 2>&1 )
 rc=$?
 t1=$(date +%s)
 execs=$(grep -h "stat::number_of_executed_units" "$WORK"/logs/fuzz-*.log 2>/dev/null | awk '{s+=$2} END {print s+0}')
